@@ -128,6 +128,13 @@ def facts_dir(config):
     return os.path.join(WORK, "facts", tree_hash(), config)
 
 
+def worker_slot():
+    """suffix for cargo target directories and their locks: the self-test scripts run several checks at once (different scratch trees) and give each
+    worker a slot of its own (VERIF_SLOT), so that the builds do not queue on one target directory; a single check run uses the unsuffixed ones"""
+    s = os.environ.get("VERIF_SLOT", "")
+    return ("-w" + os.environ.get("VERIF_SLOT_PREFIX", "") + s) if s else ""
+
+
 def _lock(name):
     os.makedirs(os.path.join(WORK, "locks"), exist_ok=True)
     f = open(os.path.join(WORK, "locks", name), "w")
@@ -169,6 +176,8 @@ def ensure_mir_facts(features, slot=None, want_derive=False):
         return out
     # a stable slot per configuration (4 target directories): dependencies stay warm across tree changes
     slot = slot or ("slot%d" % (int(hashlib.sha256(config.encode()).hexdigest(), 16) % 4))
+    if worker_slot():
+        slot = "slot" + worker_slot()      # one target directory per worker (not four): disk
     lk = _lock("target-" + slot)
     try:
         if os.path.exists(main) and (not need_derive or os.path.exists(derive)):
@@ -405,11 +414,11 @@ def ensure_fixture_facts(scale_info_features=("derive",)):
     srcp = os.path.join(out, "src.json")
     if os.path.exists(mirp) and os.path.exists(srcp):
         return mirp, srcp
-    lk = _lock("fixtures")
+    lk = _lock("fixtures" + worker_slot())
     try:
         if os.path.exists(mirp) and os.path.exists(srcp):
             return mirp, srcp
-        prune_target("fixtures")
+        prune_target("fixtures" + worker_slot())
         os.makedirs(out, exist_ok=True)
         d = os.path.join(WORK, "fixtures", tree_hash()[:12] + "-" + tag)
         os.makedirs(os.path.join(d, "src"), exist_ok=True)
@@ -429,7 +438,7 @@ publish = false
 info = { package = "scale-info", path = "%s", default-features = false, features = [%s] }
 scale = { package = "parity-scale-codec", version = "3", default-features = false, features = ["derive"] }
 """ % (REPO, ", ".join('"%s"' % x for x in sorted(scale_info_features))))
-        tdir = os.path.join(WORK, "target", "fixtures")
+        tdir = os.path.join(WORK, "target", "fixtures" + worker_slot())
         for fp in glob.glob(os.path.join(tdir, "debug", ".fingerprint", "verif-fixtures-*")):
             shutil.rmtree(fp, ignore_errors=True)
         env = dict(os.environ)
